@@ -1,9 +1,9 @@
 (* C08 — every written file is structurally valid TRIPOLI-4 input.
    Only restatements; proofs are in C08/Proofs*.v, definitions in C08/Model.v
    (what the code does) and C08/Spec.v (what a valid file is; wf_state). *)
-From Coq Require Import List NArith ZArith Bool String Ascii Permutation.
+From Coq Require Import List NArith ZArith Bool String Ascii Permutation Reals.
 From T4V Require Import Base.Str C08.Model C08.Spec C08.ProofsSets C08.ProofsWrite C08.ProofsPrune
-     C08.ProofsTail C08.ProofsParse C08.Check C08.ProofsRefute.
+     C08.ProofsTail C08.SurfEq C08.Parse C08.ProofsChars C08.ProofsParse C08.ProofsGiven C08.ProofsEnd C08.CheckText C08.Check C08.ProofsRefute.
 Import ListNotations.
 
 (* VolumeT4.__str__: for EVERY volume (no hypothesis), each declared count equals the
@@ -119,17 +119,79 @@ Theorem C08_bc_defined : forall (E : Type) (ren : option (list (Z * Z))) (w : ws
 Proof. intros E. exact bc_defined. Qed.
 Print Assumptions C08_bc_defined.
 
-(* text level, partial: the token stream VolumeT4.__str__ emits for a volume line (the SAME
-   volu_tokens the tied printer print_volu joins with blanks) is read back by a count-driven
-   reader — each keyword followed by its count and then exactly that many items — as the
-   line it came from.  Missing for the full parse_t4 (print_t4 f) = Some f: the character
-   level (decimal rendering of numbers, splitting at blanks, comments) and the SURF /
-   COMPOSITION / GEOMCOMP / BOUNDARY_CONDITION blocks *)
-Theorem C08_print_parse_roundtrip_partial : forall (k : Z) (v : volume),
-  let l := volu_line_of k v in
-  read_volu (volu_tokens l) = Some (vl_plus l, vl_minus l, vl_op l, vl_fictive l).
-Proof. exact volu_line_of_roundtrip. Qed.
-Print Assumptions C08_print_parse_roundtrip_partial.
+(* the pipeline theorems for the concrete SurfaceT4.__eq__ (type, parameters, transform
+   compared with the scalar equality; C08/SurfEq.v) read at R: symmetry and transitivity are
+   proved there, so the hypothesis disappears *)
+Theorem C08_convert_tail_wf_R :
+  forall skip_dedup u0 u1 (w : wstate (spayload R)),
+  stage0_ok Req_payload u0 u1 w ->
+  exists o, convert_tail Req_payload skip_dedup u0 u1 w = Ok o /\
+    (o = Died false [] EValue \/
+     exists f, wf_file f /\ (o = Complete f \/ exists e, o = Raised f e /\ f_bc f = None)).
+Proof. exact convert_tail_wf_R. Qed.
+Print Assumptions C08_convert_tail_wf_R.
+
+(* TEXT LEVEL, all blocks, character level: the reader parse_t4 (C08/Parse.v: count-driven,
+   splits the text at newlines and blanks, reads decimal numerals, splits the comment off at
+   " // ") applied to the text print_t4 emits gives back the abstract file, for every file
+   whose word fields are words (no blank, no newline; no '/' in SURF types and parameters;
+   type <> "TRANSFORM"), whose comments have no newline and whose declared counts equal the
+   lengths (printable).  print_t4 is the printer the byte tie executes; parse_t4 is run on
+   the bytes of every real file by tie:reader *)
+Theorem C08_print_parse_roundtrip : forall f, printable f -> parse_t4 (print_t4 f) = Some f.
+Proof. exact parse_print_roundtrip. Qed.
+Print Assumptions C08_print_parse_roundtrip.
+
+(* the written file is printable, so: under wf_state and words_ok (the strings of the tables
+   are words; checked on every snapshot by tie:text) the writers leave a file that satisfies
+   every clause of the property AND whose text the reader reads back as exactly that file *)
+Theorem C08_written_text_wf : forall (E : Type) ren (w : wstate E),
+  wf_state w -> words_ok w ->
+  exists f, written ren w f /\ wf_file f /\ parse_t4 (print_t4 f) = Some f.
+Proof. intros E. exact (@written_text_wf E). Qed.
+Print Assumptions C08_written_text_wf.
+
+(* "every numeric field is a finite number": the writers only print what they are given —
+   every SURF parameter, TRANSFORM entry, composition density and amount of the written file
+   is a numeric string of the tables; so for ANY notion of finite the clause reduces to an
+   invariant of the tables (checked with the concrete finiteb on every snapshot by tie:text,
+   and on the bytes of every real file through the reader by tie:reader).  No hypothesis
+   on the tables *)
+Theorem C08_numbers_given : forall (E : Type) ren (w : wstate E) f,
+  written ren w f -> forall x, In x (file_numbers f) -> In x (state_numbers w).
+Proof. intros E. exact (@numbers_given E). Qed.
+Print Assumptions C08_numbers_given.
+
+Theorem C08_numbers_finite : forall (E : Type) (finite : string -> Prop) ren (w : wstate E) f,
+  written ren w f -> Forall finite (state_numbers w) -> Forall finite (file_numbers f).
+Proof. intros E. exact (@numbers_finite E). Qed.
+Print Assumptions C08_numbers_finite.
+
+Theorem C08_words_okb_sound : forall (E : Type) (w : wstate E), words_okb w = true -> words_ok w.
+Proof. intros E. exact (@words_okb_sound E). Qed.
+Print Assumptions C08_words_okb_sound.
+
+(* THE WHOLE PROPERTY TEXT, END TO END, AT THE LEVEL OF CHARACTERS.  From the tables
+   construct_volume_t4 returns (stage0_ok, words_ok: facts about code outside this model,
+   checked on every snapshot by tie:stage0 and tie:text), for every option combination: the
+   tail of the conversion does not raise before the file is opened, and either every volume
+   was pruned away (header only), or the file f it leaves
+   - satisfies every structural clause (wf_file),
+   - is read back from its own characters by the reader as exactly f,
+   - and has only numeric fields that are numeric strings of the tables (so they are finite
+     numbers whenever those are, for any notion of finite).
+   Stated for the concrete SurfaceT4.__eq__ at R: no hypothesis on the surface equality *)
+Theorem C08_convert_tail_text_wf_R :
+  forall skip_dedup u0 u1 (w : wstate (spayload R)),
+  stage0_ok Req_payload u0 u1 w -> words_ok w ->
+  exists o, convert_tail Req_payload skip_dedup u0 u1 w = Ok o /\
+    (o = Died false [] EValue \/
+     exists f, (o = Complete f \/ exists e, o = Raised f e) /\
+               wf_file f /\ parse_t4 (print_t4 f) = Some f /\
+               forall finite : string -> Prop,
+                 Forall finite (state_numbers w) -> Forall finite (file_numbers f)).
+Proof. exact (convert_tail_text_wf Req_payload Req_payload_sym Req_payload_trans). Qed.
+Print Assumptions C08_convert_tail_text_wf_R.
 
 (* ---- open defects: a composition that is named but not written.  The hypothesis cell_named
    (s0_cells / ws_cells) of the theorems above cannot be dropped: with closed tables, a cell
